@@ -1307,6 +1307,8 @@ class Arm(Robot):
             jacobian
         """
         theta = self._helper_ensure_theta_not_none(theta)
+        self.screw_list_body = (
+            fmr.Adjoint(self._end_effector_home.inv().gTM()) @ self.screw_list)
         return fmr.JacobianBody(self.screw_list_body, theta)
 
     def jacobianLink(self, i : int,  theta : 'np.ndarray[float]' = None) -> 'np.ndarray[float]':
